@@ -8,6 +8,8 @@ import Mathlib.Algebra.Module.Pi
 import Mathlib.Tactic.FieldSimp
 import Mathlib.Tactic.Ring
 import Mathlib.Tactic.Abel
+import Mathlib.Data.Fin.VecNotation
+import Mathlib.Tactic.FinCases
 /-! # C07 — primitive-level operations do exactly what they are defined to do -/
 namespace BSE.Props.C07
 open BSE
@@ -171,6 +173,80 @@ theorem zeroRow_support {n m : ℕ} (cols : Fin m → (Fin n → ℚ)) (r : Fin 
   · by_cases hi : i = r
     · subst hi; simp at h
     · rwa [Function.update_of_ne hi] at h
+
+/-! ### all free primitives at once
+
+`optimize_general` zeroes, in one sweep, row `r` of every column other than `s` for **every** pair `(r, s)` where
+column `s` is a single-primitive column with its only non-zero entry in row `r` (the code refuses the shell when two
+such columns sit on the same row).  `zeroAll` is that sweep; it keeps the span, by induction over the pairs with
+`span_zeroRow` as the step. -/
+
+/-- the sweep: entry `(j, i)` is zeroed when some pair `(i, s)` with `s ≠ j` exists -/
+def zeroAll {n m : ℕ} (cols : Fin m → (Fin n → ℚ)) (pairs : List (Fin n × Fin m)) : Fin m → (Fin n → ℚ) :=
+  fun j i => if ∃ p ∈ pairs, p.1 = i ∧ p.2 ≠ j then 0 else cols j i
+
+theorem zeroAll_nil {n m : ℕ} (cols : Fin m → (Fin n → ℚ)) : zeroAll cols [] = cols := by
+  funext j i; simp [zeroAll]
+
+theorem zeroAll_cons {n m : ℕ} (cols : Fin m → (Fin n → ℚ)) (p : Fin n × Fin m) (ps : List (Fin n × Fin m)) :
+    zeroAll cols (p :: ps) = zeroRow (zeroAll cols ps) p.1 p.2 := by
+  funext j i
+  simp only [zeroAll, zeroRow, List.mem_cons, exists_eq_or_imp]
+  by_cases hj : j = p.2
+  · subst hj; simp [zeroAll]
+  · by_cases hi : i = p.1
+    · subst hi
+      have : p.2 ≠ j := fun h => hj h.symm
+      simp [hj, this]
+    · have : ¬ (p.1 = i) := fun h => hi h.symm
+      simp [hj, this, Function.update_of_ne hi, zeroAll]
+
+open Submodule in
+/-- **the whole sweep of optimize_general keeps the linear span of the contractions**, for any number of free
+primitives: every pair names a column whose only non-zero entry is in the pair's row, rows pairwise different -/
+theorem span_zeroAll {n m : ℕ} (cols : Fin m → (Fin n → ℚ)) (pairs : List (Fin n × Fin m))
+    (hsingle : ∀ p ∈ pairs, (∀ i, i ≠ p.1 → cols p.2 i = 0) ∧ cols p.2 p.1 ≠ 0)
+    (hrows : (pairs.map (·.1)).Nodup) :
+    span ℚ (Set.range (zeroAll cols pairs)) = span ℚ (Set.range cols) := by
+  induction pairs with
+  | nil => rw [zeroAll_nil]
+  | cons p ps ih =>
+    have hrows' : (ps.map (·.1)).Nodup := (List.nodup_cons.1 (by simpa using hrows)).2
+    have hnot : p.1 ∉ ps.map (·.1) := (List.nodup_cons.1 (by simpa using hrows)).1
+    have ih' := ih (fun q hq => hsingle q (List.mem_cons_of_mem _ hq)) hrows'
+    obtain ⟨hz, hnz⟩ := hsingle p (List.mem_cons_self ..)
+    rw [zeroAll_cons, span_zeroRow (zeroAll cols ps) p.1 p.2 ?_ ?_, ih']
+    · intro i hi
+      simp only [zeroAll]
+      split
+      · rfl
+      · exact hz i hi
+    · simp only [zeroAll]
+      rw [if_neg]
+      · exact hnz
+      · rintro ⟨q, hq, hq1, _⟩
+        exact hnot (List.mem_map.2 ⟨q, hq, hq1⟩)
+
+/-- the sweep never creates a non-zero entry, and never touches a single-primitive column itself -/
+theorem zeroAll_support {n m : ℕ} (cols : Fin m → (Fin n → ℚ)) (pairs : List (Fin n × Fin m)) (j : Fin m) (i : Fin n)
+    (h : zeroAll cols pairs j i ≠ 0) : cols j i ≠ 0 := by
+  unfold zeroAll at h
+  split at h
+  · exact absurd rfl h
+  · exact h
+
+/-- after the sweep a free primitive's row is non-zero only in its own column -/
+theorem zeroAll_row_exclusive {n m : ℕ} (cols : Fin m → (Fin n → ℚ)) (pairs : List (Fin n × Fin m))
+    (p : Fin n × Fin m) (hp : p ∈ pairs) (j : Fin m) (hj : j ≠ p.2) : zeroAll cols pairs j p.1 = 0 := by
+  unfold zeroAll
+  rw [if_pos ⟨p, hp, rfl, fun h => hj h.symm⟩]
+
+/-- non-vacuity: two free primitives in a 3×3 block -/
+example : let cols : Fin 3 → (Fin 3 → ℚ) := ![![1, 2, 3], ![0, 5, 0], ![0, 0, 7]]
+    zeroAll cols [(1, 1), (2, 2)] 0 = ![1, 0, 0] := by
+  intro cols
+  funext i
+  fin_cases i <;> simp [zeroAll, cols]
 
 /-- the literal written by the zeroing step is a zero, and `optimize_general` first makes the
 basis general with `skip_spdf = True` (both read from the source) -/
